@@ -102,8 +102,10 @@ def _inplace_on(s, P, r):
         P.add('S.mask_entry', r, s.randint(1, 40))
     elif x < 0.8:
         P.add('S.setitem', r, s.randint(1, 40), 123.0)
-    else:
+    elif x < 0.92:
         P.add('S.mask_corners', r)
+    else:
+        P.add('S.unmask_all', r)
 
 
 def _spec_tail(s, P, fs, ns):
@@ -337,7 +339,7 @@ def g_chain5d(s, P):
         phi = P.add('phi_reorder_pops', phi, order)
         phi = P.add('Integration.five_pops', phi, xx, 0.01, 1.0, 2.0, 1.0, 0.5, 1.0)
     if s.chance(0.2):
-        phi = P.add(s.choice(['phi_5D_admix_into_1', 'phi_5D_admix_into_5', 'phi_5D_admix_into_3']), phi, 0.1, 0, 0.2, 0, xx, xx, xx, xx, xx)
+        phi = P.add(s.choice(['phi_5D_admix_into_1', 'phi_5D_admix_into_2', 'phi_5D_admix_into_3', 'phi_5D_admix_into_4', 'phi_5D_admix_into_5']), phi, 0.1, 0, 0.2, 0, xx, xx, xx, xx, xx)
     ns = [2, 2, 2, 2, 2]
     P.add('from_phi', phi, ns, T(xx, xx, xx, xx, xx))
     return P
